@@ -273,10 +273,10 @@ theorem subsOK_removed (m : Mgr) (rid uid : Id) (s : SubId) (h : SubsOK m) (hl :
   exact (removedMgr_alookup m rid uid s rid0 (.sub uid' c um) (by simp) (key s0 rid0 h0).2).2 hq
 
 /-- the manager after `unsubscribe` -/
-theorem subsOK_unsub (m : Mgr) (rid uid : Id) (s : SubId) (h : SubsOK m) (hl : alookup s m.subs = some rid) :
-    SubsOK (unsubMgr m rid uid s) := by
-  have hsub := (unsubMgr_others m rid uid s).1
-  have key : ∀ s0 rid0, alookup s0 (unsubMgr m rid uid s).subs = some rid0 →
+theorem subsOK_unsub (m : Mgr) (rid uid : Id) (s : SubId) (ch : ChanId) (h : SubsOK m) (hl : alookup s m.subs = some rid) :
+    SubsOK (unsubMgr m rid uid s ch) := by
+  have hsub := (unsubMgr_others m rid uid s ch).1
+  have key : ∀ s0 rid0, alookup s0 (unsubMgr m rid uid s ch).subs = some rid0 →
       alookup s0 m.subs = some rid0 ∧ rid0 ≠ rid := by
     intro s0 rid0 h0
     rw [hsub] at h0
@@ -287,7 +287,7 @@ theorem subsOK_unsub (m : Mgr) (rid uid : Id) (s : SubId) (h : SubsOK m) (hl : a
     exact hs0 ((h s rid0 hl).2 s0 h0)
   refine subsOK_transfer h (fun s0 rid0 h0 => (key s0 rid0 h0).1) ?_
   intro s0 rid0 h0 uid' c um hq
-  exact (unsubMgr_alookup m rid uid s rid0 (.sub uid' c um) (by simp) (by simp) (key s0 rid0 h0).2).2 hq
+  exact (unsubMgr_alookup m rid uid s ch rid0 (.sub uid' c um) (by simp) (by simp) (key s0 rid0 h0).2).2 hq
 
 theorem processSubscriptionClose_subsOK (st : Core) (s : SubId) (h : SubsOK st.mgr) :
     SubsOK (processSubscriptionClose st s).mgr := by
@@ -310,7 +310,7 @@ theorem buildUnsub_subsOK (st : Core) (rid : Id) (s : SubId) (st' : Core) (msg :
     SubsOK st'.mgr := by
   obtain ⟨uid, c, um, _, _, hm, _⟩ := buildUnsub_spec st rid s st' msg hb
   rw [hm]
-  exact subsOK_unsub st.mgr rid uid s h hl
+  exact subsOK_unsub st.mgr rid uid s c h hl
 
 theorem completeSubscribe_subsOK (st : Core) (r : Response) (uid : Id) (t : Ticket) (um : Text) (h : SubsOK st.mgr) :
     SubsOK (completeSubscribe st r uid t um).1.mgr := by
@@ -336,7 +336,7 @@ theorem completeSubscribe_subsOK (st : Core) (r : Response) (uid : Id) (t : Tick
 
 theorem completePendingCall_subsOK (m m' : Mgr) (id : Id) (t : Option Ticket) (h : SubsOK m)
     (hc : m.completePendingCall id = some (m', t)) : SubsOK m' := by
-  rcases completePendingCall_spec m id m' t hc with ⟨hl, e⟩ | ⟨rid, hl, _, e⟩
+  rcases completePendingCall_spec m id m' t hc with ⟨hl, e⟩ | ⟨rid, _, hl, _, e⟩
   · rw [e]; exact subsOK_erase_req _ _ h (by intro a b c; rw [hl]; simp)
   · rw [e]; exact subsOK_release _ _ (subsOK_erase_req _ _ h (by intro a b c; rw [hl]; simp))
 
@@ -352,7 +352,7 @@ theorem processSingleResponse_subsOK (st st' : Core) (r : Response) (effs : List
       obtain ⟨m', t⟩ := x
       have hm' := completePendingCall_subsOK _ _ _ _ h hc
       have hm : st'.mgr = m' := by
-        cases t <;> simp [hc] at hp <;> rw [← hp.1] <;> rfl
+        cases t <;> simp [hc] at hp <;> rw [← hp.1] <;> first | rfl | exact ackAt_mgr _ _
       rw [hm]; exact hm'
   | pendingSub =>
     simp only [hs] at hp
